@@ -5,6 +5,9 @@ from contracts import grammar as G
 
 from contracts import wrappers as W
 from contracts import core as K
+from contracts import formulas as F_DEP
+from contracts import density as D_DEP
+from contracts import core as K_DEP
 ID = "C11"
 LEVEL = "other"
 TRUSTED = ["A1 real arithmetic", "A3 min/sum/zip/all", "A4 pyparsing (string forms are observed, bounded)", "A6 solvers"]
@@ -19,13 +22,14 @@ EXPLANATION = ("Deductive: _mix_by_weight_pairs (1-3 components) and _mix_by_vol
 
 def units(tier):
     return (((M.U_MIX_WEIGHT + M.U_MIX_VOLUME + M.U_BY_WEIGHT + M.U_BY_VOLUME + M.U_MIX_WRAPPERS +
-            [F.L_SUM_HOMOGENEOUS, F.L_SUM_ADDITIVE, F.L_SUM_SUPPORT, F.L_CONCAT, F.U_RMUL, F.U_IADD, G.L_TOKENS]) + [W.U_PKG[1], W.U_PKG[2]]) + [K.L_ATOM_IDENTITY]) + M.U_BY_ABSMASS + M.U_BY_LAYER + F.U_FORMULA_STRING + G.U_PARSE_FORMULA
+            [F.L_SUM_HOMOGENEOUS, F.L_SUM_ADDITIVE, F.L_SUM_SUPPORT, F.L_CONCAT, F.U_RMUL, F.U_IADD, G.L_TOKENS]) + [W.U_PKG[1], W.U_PKG[2]]) + [K.L_ATOM_IDENTITY]) + M.U_BY_ABSMASS + M.U_BY_LAYER + F.U_FORMULA_STRING + G.U_PARSE_FORMULA + ([F_DEP.U_COUNT_ATOMS, F_DEP.U_ATOMS]) + ([D_DEP.U_DENSITY_EL, D_DEP.U_DENSITY_ISO, K_DEP.L_REGISTRATION])
 
 
 def runner_tasks(tier):
     return [{"module": "c11", "task": "pairs", "kind": "bounded", "clause": "mix_by_weight / mix_by_volume calls"},
             {"module": "c11", "task": "strings", "kind": "bounded", "clause": "string forms, units, nesting, repeated groups"},
-            {"module": "stateful", "task": "C11", "name": "stateful", "kind": "bounded", "clause": "series of mixtures from the same component objects; '( mixture )@dn'; bare % before symbols that begin like a keyword; stated amounts kept with name=/density="}]
+            {"module": "stateful", "task": "C11", "name": "stateful", "kind": "bounded", "clause": "series of mixtures from the same component objects; '( mixture )@dn'; bare % before symbols that begin like a keyword; stated amounts kept with name=/density="},
+            {"module": "independence", "task": "observations", "name": "independence", "kind": "bounded", "arg": {"tags": ["C11"]}, "clause": "fixed observations give the same value as the first use of the library in a fresh interpreter, in a warmed-up interpreter (twice) and in reverse order, and have their documented value", "timeout": 900}]
 
 
 REPLAY = {"module": "c11", "task": "replay"}
